@@ -8,6 +8,8 @@
      start    execve of the driver                         -> ParseArgs
      mkstemp  openat(/tmp/chibicc-XXXXXX, O_CREAT|O_EXCL)  -> CreateTmp
      exec     first execve of a child: tool, inputs, output-> Spawn
+     execfail a forked / spawned child none of whose execve
+              calls succeeded, reaped by the driver          -> SpawnFail
      run      what that child opened / unlinked            -> ChildRun
      wait     wait4 returning the child's status           -> Wait
      unlink   unlink by the driver                         -> Cleanup
@@ -55,6 +57,7 @@ Step ==
   \/ /\ ev.e = "mkstemp" /\ CreateTmp(1, ev.n)
   \/ /\ ev.e = "exec" /\ Spawn(1)
      /\ child'[1].tool = ev.tool /\ child'[1].ins = ev.ins /\ child'[1].out = ev.out
+  \/ /\ ev.e = "execfail" /\ SpawnFail(1) /\ prog[1][ip[1]].op = ev.tool
   \/ /\ ev.e = "run" /\ ChildRun(1) /\ RunOK(child[1], child'[1].status)
   \/ /\ ev.e = "wait" /\ Wait(1) /\ child[1].status = ev.status
   \/ /\ ev.e = "unlink" /\ Cleanup(1) /\ ev.p = tmps[1][cl[1] + 1]
